@@ -27,7 +27,7 @@ Q2 = "tmana.scores_extract_particles"
 def run_cbd(ctx, keep_greater):
     it = Interp(ctx.prog, summaries={"cryocat.cryomotl.Motl.get_feature": lambda it_, a, k, n, f: Unk(call("col_values", to_term(a[0])))},
                 assume=assume_map({"dist_mask is not None": False, "dist_mask is None": True, "keep_greater": keep_greater,
-                                   "isinstance(feature_values, list)": False, "reset_index": True, "return_df": False}))
+                                   "isinstance(feature_values, list)": False, "isinstance(feature_values, (list, np.ndarray))": False, "reset_index": True, "return_df": False}))
     me = motl_obj(ctx.prog)
     it.run(Q1, [P("distance_in_voxels"), P("feature_id")], {"metric_id": P("metric_id"), "keep_greater": K(keep_greater)}, self_obj=me)
     return it, me
